@@ -2,6 +2,7 @@ import Driver.Proto
 import RsModel.Model.EqHash
 import RsModel.Model.Json
 import RsModel.Model.Conc
+import RsModel.Model.Checked
 /-!
 # `rsdriver`: reads protocol requests on stdin, answers on stdout, one line each.
 State: named trees and the store of cached maps (persisting until `reset`).
@@ -100,7 +101,8 @@ def step (d : DState) (line : String) : DState × String :=
     match pNode (rest.length + 1) rest with
     | some (s, []) => ({ d with trees := (name, s) :: d.trees.filter (·.1 ≠ name) }, "ok")
     | _ => bad
-  | ["src", n] => match d.tree? n with | some s => (d, showText s.src) | none => bad
+  -- `source()` through the checked splice (`trap` where the Rust would panic; equal to `s.src` on the domain: c17_source_total)
+  | ["src", n] => match d.tree? n with | some s => (d, match s.srcC with | some t => showText t | none => "trap") | none => bad
   | ["buffer", n] => match d.tree? n with | some s => (d, showText s.buffer) | none => bad
   | ["size", n] => match d.tree? n with | some s => (d, toString s.size) | none => bad
   | ["rope", n] =>
@@ -114,8 +116,10 @@ def step (d : DState) (line : String) : DState × String :=
   | ["stream", n, c, f] =>
     match d.tree? n, pBool [c], pBool [f] with
     | some s, some (c, _), some (f, _) =>
-      let r := s.stream ⟨c, f⟩ d.store
-      ({ d with store := r.2 }, showSResult r.1)
+      -- through the checked splitters (`trap` where the Rust would panic; equal to `s.stream` on the domain: C17)
+      match s.streamC ⟨c, f⟩ d.store with
+      | some r => ({ d with store := r.2 }, showSResult r.1)
+      | none => (d, "trap")
     | _, _, _ => bad
   | ["map", n, c, f] =>
     match d.tree? n, pBool [c], pBool [f] with
